@@ -1,0 +1,14 @@
+//go:build !verif
+
+// Package verifhook provides named observation points for the external
+// verification harness. Without the "verif" build tag it does nothing.
+package verifhook
+
+// Set is a no-op without the verif tag.
+func Set(f func(point string, args ...any)) {}
+
+// At is a no-op without the verif tag.
+func At(point string, args ...any) {}
+
+// Enabled reports whether hooks are compiled in.
+const Enabled = false
